@@ -93,6 +93,10 @@ func forEachInitializer(p *lang.Process, additional []string) (block []rune, var
 }
 
 func cmdForEachDefault(p *lang.Process, steps int, additional []string) error {
+	if steps < 0 {
+		return fmt.Errorf("invalid value for %s: %d (it cannot be negative)", foreachStep, steps)
+	}
+
 	block, varName, err := forEachInitializer(p, additional)
 	if err != nil {
 		return err
